@@ -352,3 +352,74 @@ Example C03_wf_run_with_refusals : wf_run [0; 0; 0] refused_witness.
 Proof. unfold wf_run, refused_witness, wf_tuning, tn1, RNG_DEN. cbn. repeat split; try lia; try (repeat constructor; lia); intuition discriminate. Qed.
 Example C03_range_nonvacuous : wf_tuning dflt /\ range dflt 2000000 /\ range dflt 3000000 /\ ~ range dflt 3000001.
 Proof. unfold wf_tuning, range, dflt; cbn. lia. Qed.
+
+(* ---- round 7 *)
+From Verif Require Import Proofs.C03R7.
+(* 3c. the CLASS of every failure of an unanswered CON request (round 6 bounded only their number). A request that failed -- with whatever
+   exception -- is pending nowhere; hence (with C03_exchange_request_pending) the request of an outstanding exchange has not failed at all *)
+Theorem C03_failed_not_pending : forall mid0 draws evs tf rid x, wf_run draws evs -> In (OFail tf rid x) (trace_of mid0 draws evs) ->
+  forall r, ~ In (rid, r) (outgoing_requests (final_of mid0 draws evs)).
+Proof. exact failed_not_pending. Qed.
+Print Assumptions C03_failed_not_pending.
+Theorem C03_active_exchange_not_failed : forall mid0 draws evs e, wf_run draws evs -> In e (active_exchanges (final_of mid0 draws evs)) ->
+  ~ In (gone_key (e_rid e)) (recv_keys evs) -> forall tf x, ~ In (OFail tf (e_rid e) x) (trace_of mid0 draws evs).
+Proof. exact active_exchange_not_failed. Qed.
+Print Assumptions C03_active_exchange_not_failed.
+(* the give-up theorem with the complete list of the request's failure outputs in each outcome, for every history (refusing transports
+   included): still waiting => no failure of any class so far; gave up => ConRetransmitsExceeded at the deadline is its one and only
+   failure; refused by the transport => NetworkError is its one and only failure *)
+Theorem C03_gives_up_class : forall mid0 draws evs t m, wf_run draws evs -> In (OSend t m) (trace_of mid0 draws evs) ->
+  ~ In (m_remote m, m_mid m) (recv_keys evs) -> ~ In (err_key (m_remote m)) (recv_keys evs) -> ~ In (gone_key (m_rid m)) (recv_keys evs) ->
+  exists T0 t0 n, copies (m_rid m) (trace_of mid0 draws evs) = sched_of m T0 t0 n /\ (0 < n)%nat /\ range (m_tuning m) t0 /\
+    Z.of_nat n <= MAX_RETRANSMIT (m_tuning m) + 1 /\
+    ( ((exists e, In e (active_exchanges (final_of mid0 draws evs)) /\ h_message (e_timer e) = m /\
+                  h_due (e_timer e) = T0 + t0 * (2 ^ Z.of_nat n - 1) /\ now (final_of mid0 draws evs) <= h_due (e_timer e)) /\
+       (forall tf x, ~ In (OFail tf (m_rid m) x) (trace_of mid0 draws evs))) \/
+      (Z.of_nat n = MAX_RETRANSMIT (m_tuning m) + 1 /\
+       In (OFail (T0 + t0 * (2 ^ (MAX_RETRANSMIT (m_tuning m) + 1) - 1)) (m_rid m) ConRetransmitsExceeded) (trace_of mid0 draws evs) /\
+       (forall tf x, In (OFail tf (m_rid m) x) (trace_of mid0 draws evs) ->
+          tf = T0 + t0 * (2 ^ (MAX_RETRANSMIT (m_tuning m) + 1) - 1) /\ x = ConRetransmitsExceeded)) \/
+      (exists tf, In (OFail tf (m_rid m) NetworkError) (trace_of mid0 draws evs) /\
+         (forall tf' x, In (OFail tf' (m_rid m) x) (trace_of mid0 draws evs) -> tf' = tf /\ x = NetworkError)) ).
+Proof. exact gives_up_class. Qed.
+Print Assumptions C03_gives_up_class.
+(* ... on a transport that never refuses and reports no error for the remote this request was addressed to: the two outcomes of the
+   property text *)
+Theorem C03_gives_up_class_plain_remote : forall mid0 draws evs t m, wf_run draws evs -> no_refusal evs ->
+  (forall r tn, In (ERequest (m_rid m) r tn) evs -> ~ In (EError r) evs) ->
+  In (OSend t m) (trace_of mid0 draws evs) ->
+  ~ In (m_remote m, m_mid m) (recv_keys evs) -> ~ In (err_key (m_remote m)) (recv_keys evs) -> ~ In (gone_key (m_rid m)) (recv_keys evs) ->
+  exists T0 t0 n, copies (m_rid m) (trace_of mid0 draws evs) = sched_of m T0 t0 n /\ (0 < n)%nat /\ range (m_tuning m) t0 /\
+    Z.of_nat n <= MAX_RETRANSMIT (m_tuning m) + 1 /\
+    ( ((exists e, In e (active_exchanges (final_of mid0 draws evs)) /\ h_message (e_timer e) = m /\
+                  h_due (e_timer e) = T0 + t0 * (2 ^ Z.of_nat n - 1) /\ now (final_of mid0 draws evs) <= h_due (e_timer e)) /\
+       (forall tf x, ~ In (OFail tf (m_rid m) x) (trace_of mid0 draws evs))) \/
+      (Z.of_nat n = MAX_RETRANSMIT (m_tuning m) + 1 /\
+       In (OFail (T0 + t0 * (2 ^ (MAX_RETRANSMIT (m_tuning m) + 1) - 1)) (m_rid m) ConRetransmitsExceeded) (trace_of mid0 draws evs) /\
+       (forall tf x, In (OFail tf (m_rid m) x) (trace_of mid0 draws evs) ->
+          tf = T0 + t0 * (2 ^ (MAX_RETRANSMIT (m_tuning m) + 1) - 1) /\ x = ConRetransmitsExceeded)) ).
+Proof. exact gives_up_class_plain_remote. Qed.
+Print Assumptions C03_gives_up_class_plain_remote.
+(* headline: ANY error delivered to a CON request whose transmissions all went unanswered is ConRetransmitsExceeded, delivered after all
+   1 + MAX_RETRANSMIT copies, exactly one more doubled interval after the last copy; every history *)
+Theorem C03_unanswered_error_is_ConRetransmitsExceeded : forall mid0 draws evs t m, wf_run draws evs -> no_refusal evs ->
+  (forall r tn, In (ERequest (m_rid m) r tn) evs -> ~ In (EError r) evs) ->
+  In (OSend t m) (trace_of mid0 draws evs) ->
+  ~ In (m_remote m, m_mid m) (recv_keys evs) -> ~ In (err_key (m_remote m)) (recv_keys evs) -> ~ In (gone_key (m_rid m)) (recv_keys evs) ->
+  forall tf x, In (OFail tf (m_rid m) x) (trace_of mid0 draws evs) ->
+    x = ConRetransmitsExceeded /\
+    exists T0 t0, copies (m_rid m) (trace_of mid0 draws evs) = sched_of m T0 t0 (Z.to_nat (MAX_RETRANSMIT (m_tuning m) + 1)) /\
+      range (m_tuning m) t0 /\ tf = T0 + t0 * (2 ^ (MAX_RETRANSMIT (m_tuning m) + 1) - 1).
+Proof. exact unanswered_error_is_ConRetransmitsExceeded. Qed.
+Print Assumptions C03_unanswered_error_is_ConRetransmitsExceeded.
+(* ... and with refusing transports allowed: ConRetransmitsExceeded at the deadline or NetworkError, no other class *)
+Theorem C03_unanswered_error_class : forall mid0 draws evs t m, wf_run draws evs -> In (OSend t m) (trace_of mid0 draws evs) ->
+  ~ In (m_remote m, m_mid m) (recv_keys evs) -> ~ In (err_key (m_remote m)) (recv_keys evs) -> ~ In (gone_key (m_rid m)) (recv_keys evs) ->
+  forall tf x, In (OFail tf (m_rid m) x) (trace_of mid0 draws evs) ->
+    (x = ConRetransmitsExceeded /\
+     exists T0 t0, copies (m_rid m) (trace_of mid0 draws evs) = sched_of m T0 t0 (Z.to_nat (MAX_RETRANSMIT (m_tuning m) + 1)) /\
+       range (m_tuning m) t0 /\ tf = T0 + t0 * (2 ^ (MAX_RETRANSMIT (m_tuning m) + 1) - 1)) \/
+    x = NetworkError.
+Proof. exact unanswered_error_class. Qed.
+Print Assumptions C03_unanswered_error_class.
+(* non-vacuity of the hypotheses (three concrete runs: still waiting / gave up / refused): Proofs/C03R7.v, Examples *_nonvacuous *)
